@@ -16,7 +16,7 @@ def jobs(tier):
     from . import C01, C02, C03, C04
 
     out = []
-    strides = {"C01": 9, "C02": 1, "C03": 2, "C04": 2} if tier == "quick" else {"C01": 2, "C02": 1, "C03": 1, "C04": 1}
+    strides = {"C01": 9, "C02": 1, "C03": 2, "C04": 1} if tier == "quick" else {"C01": 2, "C02": 1, "C03": 1, "C04": 1}
     for name, mod in (("C01", C01), ("C02", C02), ("C03", C03), ("C04", C04)):
         js = mod.jobs(tier)
         for i, j in enumerate(js):
